@@ -122,6 +122,13 @@ def ob_e2e(tier):
                 runs.append(r)
                 if r.get("reproduced"):
                     bad.append(r)
+    # a cache produced by create_cache=True for a re-delivered image (same name) is the cache of THAT image
+    for level in ("1.5", "1.1"):
+        r = api.stale_cache(level)
+        r.update(level=level, protocol="file", producer="option (regenerated after the image was replaced)", location="local")
+        runs.append(r)
+        if r.get("reproduced"):
+            bad.append(r)
     res = {"verdict": "violated" if bad else "discharged", "queries": len(runs), "replays": len(runs)}
     if bad:
         res["cex"] = bad[:3]
